@@ -45,6 +45,11 @@ def main():
              'kind_free_text': 'Verus 0.2026.09.13 (Z3) on the real crates, annotated in place by vf/extract.py from contracts/verus/*.overlay'},
             {'name': 'kani', 'path': 'vf/kani.py', 'serves_properties': sorted(p for p in props.PROPS if props.PROPS[p].get('kani')),
              'kind_free_text': 'Kani 0.68 / CBMC 6.11 harnesses (contracts/kani/*.rs) on the real crate + real tinystr'},
+            {'name': 'witness', 'path': 'witness/', 'serves_properties': sorted(p for p in props.PROPS if props.PROPS[p].get('bounded') or props.PROPS[p].get('standin')),
+             'kind_free_text': 'replay of counterexamples on the real library and the bounded obligations (labelled bounded, never counted as proved): exhaustive enumeration of stated '
+                               'finite spaces against executable references of the contracts (witness/src/bounded.rs), the C14 layout rows by execution (vw dirrows)'},
+            {'name': 'featdiff', 'path': 'featdiff/ + vf/featdiff.py', 'serves_properties': ['C20'],
+             'kind_free_text': 'bounded differential run of one observation program built against the real crates under the four combinations of the optional cargo features'},
         ],
         'checks': checks,
         'not_applicable': na,
